@@ -302,6 +302,13 @@ var c16IllTyped = []struct{ name, src string }{
 	{"recursive-record-generic", "package main\n\ntype N<T> = {V: T; Next: []N<T>}\n\nlet f (n:N<int>) =\n  n.V\n"},
 	{"recursive-union", "package main\n\ntype L =\n| Cons of int*L\n| Nil\n\nlet f (l:L) =\n  match l with\n  | Cons p -> 1\n  | Nil -> 0\n"},
 	{"recursive-union-record", "package main\n\ntype E =\n| Add of Pair\n| Lit of int\nand Pair = {L: E; R: E}\n\nlet f (e:E) =\n  match e with\n  | Add p -> 1\n  | Lit i -> i\n"},
+	{"recursive-record-twice", "package main\n\nimport slice\n\ntype Tree = {Val: int; Left: []Tree; Right: []Tree}\n\nlet size (t:Tree) =\n  slice.Length t.Left + slice.Length t.Right\n"},
+	{"recursive-record-twice-through-record", "package main\n\nimport slice\n\ntype Tree = {Val: int; Left: []Tree; Right: []Tree}\n\ntype Forest = {Trees: []Tree; Name: string}\n\nlet count (f:Forest) =\n  slice.Length f.Trees\n"},
+	{"recursive-record-thrice-literal", "package main\n\nimport slice\n\ntype T3 = {A: []T3; B: []T3; C: []T3; N: int}\n\nlet leaf (n:int) =\n  {A=slice.New<T3> (); B=slice.New<T3> (); C=slice.New<T3> (); N=n}\n"},
+	{"recursive-records-and-twice", "package main\n\nimport slice\n\ntype Pa = {Bs: []Pb; Cs: []Pb}\nand Pb = {As: []Pa; Os: []Pa}\n\nlet f (a:Pa) (b:Pb) =\n  slice.Length a.Bs + slice.Length b.Os\n"},
+	{"recursive-generic-record-twice", "package main\n\ntype N2<T> = {V: T; L: []N2<T>; R: []N2<T>}\n\nlet f (n:N2<int>) =\n  n.V\n"},
+	{"recursive-union-twice-through-record", "package main\n\ntype E2 =\n| Bin of Pr\n| Un of Pr\n| Lt of int\nand Pr = {L: E2; R: E2; M: []E2}\n\nlet f (e:E2) =\n  match e with\n  | Bin p -> 1\n  | Un p -> 2\n  | Lt i -> i\n"},
+	{"recursive-union-pair-and-slice", "package main\n\ntype Tr =\n| Nd of Tr*Tr\n| Mn of []Tr\n| Lf of int\n\nlet f (t:Tr) =\n  match t with\n  | Nd p -> 1\n  | Mn ts -> 2\n  | Lf i -> i\n"},
 	{"type-is-func-of-self", "package main\n\ntype T = {F: T->int}\n\nlet f (t:T) =\n  1\n"},
 	{"lambda-self", "package main\n\nlet f () =\n  let g = fun x -> x x\n  1\n"},
 	{"occurs-through-call", "package main\n\nlet app f x =\n  f x\n\nlet g x =\n  app x x\n"},
